@@ -1,6 +1,7 @@
 /-
 C08 — the parser/compiler is total: the lexer → converter contract.
-PROPERTY THEOREMS ONLY (lemmas: Proofs/Lexer.lean; model: Martian/Lexer.lean).
+PROPERTY THEOREMS ONLY (lemmas: Proofs/Lexer*.lean, Proofs/Regex*.lean, Proofs/Tokenizer*.lean;
+models: Martian/Lexer*.lean, Martian/Regex.lean, Martian/Tokenizer.lean).
 
 What is proved for ALL byte strings: every token the lexer hands to a
 converter (`parseInt`, `parseFloat`, `unquoteBytes`) is converted without a
@@ -34,37 +35,6 @@ typo — on the unrepaired tree this is the obligation that breaks, F3). -/
 theorem int_rule_src : Gen.tokIntRegex = intRuleSrc := by decide
 theorem float_rule_src : Gen.tokFloatRegex = floatRuleSrc := by decide
 theorem string_rule_src : Gen.tokStringRegex = stringRuleSrc := by decide
-
-/-- Lexer → converter contract for numerals: whatever the numeric branch of
-`keywordToken` returns as NUM_INT / NUM_FLOAT is accepted by `parseInt` /
-`parseFloat` (`none` = panic). -/
-theorem num_tok_converts (b t : Bytes) :
-    (numTok false b = .int t → (parseInt t).isSome = true) ∧
-    (numTok false b = .float t → (parseFloat false t).isSome = true) := by
-  unfold numTok
-  constructor
-  · intro h
-    split at h
-    · split at h <;> cases h
-    · split at h
-      · split at h
-        · rename_i hok; cases h; exact hok
-        · cases h
-      · cases h
-  · intro h
-    split at h
-    · split at h
-      · rename_i hok; cases h; exact hok
-      · cases h
-    · split at h
-      · split at h <;> cases h
-      · cases h
-
--- non-vacuity: both kinds of token are produced
-set_option exponentiation.threshold 1100 in
-example : numTok false [0x2D, 0x34, 0x32, 0x2C] = .int [0x2D, 0x34, 0x32] ∧
-    numTok false [0x31, 0x2E, 0x35, 0x65, 0x33, 0x5D] = .float [0x31, 0x2E, 0x35, 0x65, 0x33] := by
-  decide
 
 /-- On every token the integer rule admits (any number of leading zeros, then
 at most 19 digits) `parseInt` computes the exact value when it fits in an
@@ -140,14 +110,6 @@ example : srcAction [0x20, 0x61, 0x20, 0x62] = .ok ([0x61], [[0x62]]) ∧ srcAct
 /-- Negative witness F4: the action as shipped panics on a blank command. -/
 theorem src_action_unchecked_panics : srcActionUnchecked [] = .panic ∧ srcActionUnchecked [0x20] = .panic := by
   decide
-
-/-- `nextToken` returns a non-empty text with every token other than INVALID,
-whatever the rule functions are; hence the `Lex` loop, which only continues
-after a SKIP/COMMENT token, terminates within `length + 1` iterations. -/
-theorem lexer_progress (R : Rules) (isSkip : Nat → Bool) (hskip : isSkip INVALID = false) (s : Bytes) :
-    ((nextToken R s).1 ≠ INVALID → 0 < (nextToken R s).2.length) ∧
-    ∃ r, lex R isSkip (s.length + 1) s = some r :=
-  ⟨nextToken_progress R s, lex_total R isSkip hskip _ s (by omega)⟩
 
 /-! ## The rules as REGULAR EXPRESSIONS: regex semantics, matcher, and the tie
 of the hand-written recognisers to the regex text found in tokenizer.go -/
@@ -445,5 +407,119 @@ theorem map_dim_wraps : mapDim 32767 = -32768 ∧ (∀ n : Int, 0 ≤ n → n < 
   mapDim_wraps
 
 end actions
+
+/-! ## The lexer → converter contract through the INTERPRETED tokenizer -/
+
+section contract
+open Martian.LexerActions Martian.Tokenizer
+
+/-- Whatever ONE call of `nextToken` (all clauses of the regenerated switch
+interpreted, not only the numeric one) returns with the id of NUM_FLOAT /
+NUM_INT / LITSTRING is accepted by the converter the grammar applies to that
+kind: no other clause of `Gen.tokSwitch` can produce these ids, the numeric
+clause emits them only after the range check, and the string rule's texts are
+all unquotable. -/
+theorem tokenizer_converter_contract (head t : Martian.Lexer.Bytes) :
+    (nextToken head = (lookupId Gen.tokIds "NUM_FLOAT", t) → ∃ l, parseFloat false t = some l) ∧
+    (nextToken head = (lookupId Gen.tokIds "NUM_INT", t) → ∃ i, parseInt t = some i) ∧
+    (nextToken head = (lookupId Gen.tokIds "LITSTRING", t) → ∃ out, unquoteBytes t = some out) :=
+  ⟨fun h => emitted_float_parses (head := head) h, fun h => emitted_int_parses (head := head) h,
+   fun h => emitted_string_unquotes (head := head) h⟩
+
+/-- … and such a token is the leftmost-first match of the rule's regenerated
+regex at the head. -/
+theorem tokenizer_num_token_is_regex_match (head t : Martian.Lexer.Bytes) :
+    (nextToken head = (lookupId Gen.tokIds "NUM_FLOAT", t) →
+      (Martian.Regex.parse Gen.tokFloatRegex).map (fun r => Martian.Regex.pmatch r head) = some (some t)) ∧
+    (nextToken head = (lookupId Gen.tokIds "LITSTRING", t) →
+      (Martian.Regex.parse Gen.tokStringRegex).map (fun r => Martian.Regex.pmatch r head) = some (some t)) := by
+  constructor
+  · intro h
+    have h1 := emits_float (head := head) (t := t) h
+    rw [float_rule_is_regex]
+    unfold numTok at h1
+    split at h1
+    · rename_i tt hm
+      split at h1 <;> cases h1
+      rw [hm]
+    · split at h1
+      · split at h1 <;> cases h1
+      · cases h1
+  · intro h
+    rw [string_rule_is_regex, emits_string (head := head) (t := t) h]
+
+end contract
+
+/-! ## Recogniser ⇔ DENOTATIONAL semantics (independent of the executable matcher) -/
+
+section denotational
+open Martian.Regex hiding Bytes isWord
+open Martian.LexerRegex
+
+/-- The hand-written recognisers decide the denotational semantics of the rule
+regexes: `w` followed by `post` matches the regex (anchors evaluated in that
+context) iff the recogniser, run on `w ++ post`, returns `w`.  (Hence a rule's
+match is unique: `rule_match_unique`.) -/
+theorem rules_decide_semantics (w post : Bytes) :
+    (Matches intRe [] w post ↔ matchInt (w ++ post) = some w) ∧
+    (Matches floatRe [] w post ↔ matchFloat false (w ++ post) = some w) ∧
+    (Matches stringRe [] w post ↔ matchString (w ++ post) = some w) ∧
+    (Matches idRe [] w post ↔ matchId (w ++ post) = some w) :=
+  ⟨int_matches_iff w post, float_matches_iff w post, string_matches_iff w post, id_matches_iff w post⟩
+
+end denotational
+
+/-- The regenerated facts these theorems are stated against were really found
+in the sources (a fact whose pattern is no longer found is emitted from its
+committed default with `_extracted := false`: this obligation then breaks
+instead of the theorems silently talking about the default). -/
+theorem facts_extracted :
+    Gen.tokIntRegex_extracted = true ∧ Gen.tokFloatRegex_extracted = true ∧ Gen.tokStringRegex_extracted = true ∧
+    Gen.tokIdRegex_extracted = true ∧ Gen.tokSwitch_extracted = true ∧ Gen.tokIds_extracted = true ∧
+    Gen.tokSpaceAscii_extracted = true ∧ Gen.unicodeWhiteSpace_extracted = true := by decide
+
+/-! ### definitional unfoldings (documentation of the model, not guarantees) -/
+
+/-- (By construction of `numTok`: the `if` of its definition read backwards; the
+guarantee is `tokenizer_converter_contract`.)  Whatever the numeric branch of
+`keywordToken` returns as NUM_INT / NUM_FLOAT is accepted by `parseInt` /
+`parseFloat` (`none` = panic). -/
+theorem num_tok_converts (b t : Bytes) :
+    (numTok false b = .int t → (parseInt t).isSome = true) ∧
+    (numTok false b = .float t → (parseFloat false t).isSome = true) := by
+  unfold numTok
+  constructor
+  · intro h
+    split at h
+    · split at h <;> cases h
+    · split at h
+      · split at h
+        · rename_i hok; cases h; exact hok
+        · cases h
+      · cases h
+  · intro h
+    split at h
+    · split at h
+      · rename_i hok; cases h; exact hok
+      · cases h
+    · split at h
+      · split at h <;> cases h
+      · cases h
+
+-- non-vacuity: both kinds of token are produced
+set_option exponentiation.threshold 1100 in
+example : numTok false [0x2D, 0x34, 0x32, 0x2C] = .int [0x2D, 0x34, 0x32] ∧
+    numTok false [0x31, 0x2E, 0x35, 0x65, 0x33, 0x5D] = .float [0x31, 0x2E, 0x35, 0x65, 0x33] := by
+  decide
+
+/-- (Old generic model, superseded by `lexer_progress_full` / `lex_terminates`.)
+`nextToken` returns a non-empty text with every token other than INVALID,
+whatever the rule functions are; hence the `Lex` loop, which only continues
+after a SKIP/COMMENT token, terminates within `length + 1` iterations. -/
+theorem lexer_progress (R : Rules) (isSkip : Nat → Bool) (hskip : isSkip INVALID = false) (s : Bytes) :
+    ((nextToken R s).1 ≠ INVALID → 0 < (nextToken R s).2.length) ∧
+    ∃ r, lex R isSkip (s.length + 1) s = some r :=
+  ⟨nextToken_progress R s, lex_total R isSkip hskip _ s (by omega)⟩
+
 
 end Props.C08
